@@ -46,7 +46,7 @@ def grammar_items(tier: str) -> list:
     bf = families.binary_family(1 if quick else 2)
     n_bin = 2 if quick else 3
     for g in bf:
-        items.append((g, "<start>", n_bin, [0x00, 0x01, 0x61, 0xA5, 0xFF] if not quick else [0x00, 0x01, 0x61, 0xA5]))
+        items.append((g, "<start>", n_bin, [0x00, 0x01, 0x61, 0x80, 0xFF] if not quick else [0x00, 0x01, 0x61, 0x80]))
     return items
 
 
